@@ -13,7 +13,7 @@ NEG, POS = -1000000, 1000000
 def instances(ctx):
     rng = random.Random(ctx.seed)
     out = []
-    nmax = ctx.pick(700, 8000)
+    nmax = ctx.n(ctx.pick(700, 8000))
     while len(out) < nmax:
         n = rng.choice([2, 3, 4])
         strategy = rng.choice(["uniform", "uniform", "quantile"])
